@@ -503,6 +503,15 @@ def pd_date_range(I, start=None, end=None, freq=None, tz=None, **kw):
 def pd_to_datetime(I, v, **kw):
     if isinstance(v, TS):
         return v
+    if isinstance(v, (list, tuple)) and v and all(isinstance(x, TS) for x in v):
+        v = sym.arr_from_list(list(v))
+    if isinstance(v, Arr) and concrete_int(v.n) != 0:
+        probe = v.f(z3.Int('probe!dt'))
+        if isinstance(probe, TS):
+            # DatetimeIndex of the same instants; one zone for all elements (the zone tag of the element closure)
+            out = Arr(v.n, v.f, kind='dtindex')
+            out.tz = probe.tz
+            return out
     raise Unsupported('pd.to_datetime')
 
 
@@ -1084,6 +1093,14 @@ def arr_attr(I, a, attr):
         return unique
     if attr == 'tz':
         return getattr(a, 'tz', None)
+    if attr == 'tz_localize' and a.kind == 'dtindex' and getattr(a, 'tz', None) is None:
+        def tz_localize(I_, tz):
+            if tz is None:
+                return a
+            out = Arr(a.n, lambda i, _f=a.f: TS(localize(_f(i).t, tz), tz), kind='dtindex')
+            out.tz = tz
+            return out
+        return tz_localize
     if attr == 'duplicated':
         def duplicated(I_, keep='first'):
             if keep not in ('first', 'last'):
